@@ -442,3 +442,34 @@ def run(index, rep, tier):
                     rep.check(not fresh(v), "R12.8", init.qualname, "copied attribute overwritten after the base constructor: %s" % norm_stmt(nd.stmt)[:60], fn_where(init, nd.stmt), "%s: `%s` does not overwrite copied state with a fresh value" % (k.name, norm_stmt(nd.stmt)[:50]),
                               "%s runs `%s` unconditionally after the base-class constructor: when the object is built as a copy of another one (%s(other), clone, export_character_indices ...) the base constructor has already adopted the copied attributes, and this statement replaces them by a fresh value - a standard matrix over the alphabet a/b/c comes out of a copy with the default 0-9 alphabet while its cells still hold a/b/c states" % (init.qualname, norm_stmt(nd.stmt)[:60], k.name))
         rep.floor("R12.8", "subclass constructors of cloning classes", 2, nsub)
+
+    # ---- R12.9 the caseless dictionary is read through its own interface
+    with rep.section("R12.9"):
+        rep.rule("R12.9", "the caseless dictionary is read through its own interface: the dict layer under OrderedCaselessDict holds the FOLDED keys (the original spelling lives in _ordered_keys), so its methods reach that layer only for single-key accesses with a folded key - never for a bulk read (super().items / keys / values / __iter__ / copy, dict.items(self) ...), whose keys are the folded ones; a copy made from such a read has lost the spelling of every key")
+        OCD = "dendropy.utility.container.OrderedCaselessDict"
+        oc = index.klass(OCD)
+        BULK = {"items", "keys", "values", "__iter__", "iteritems", "iterkeys", "itervalues", "copy", "popitem", "__reversed__"}
+        POINT = {"__getitem__", "__setitem__", "__delitem__", "__contains__", "get", "setdefault", "pop"}
+        n9 = 0
+        for f in oc.methods.values():
+            for c in calls_in(f.node, nested=True):
+                if not isinstance(c.func, ast.Attribute):
+                    continue
+                recv = c.func.value
+                raw = (isinstance(recv, ast.Call) and call_name(recv) == "super") or (isinstance(recv, ast.Name) and recv.id == "dict" and c.args and norm(c.args[0]) == "self")
+                if not raw:
+                    continue
+                n9 += 1
+                m_ = c.func.attr
+                if m_ in BULK:
+                    rep.check(False, "R12.9", f.qualname, "bulk read of the folded layer: `%s`" % norm(c)[:60], fn_where(f, c), "",
+                              "OrderedCaselessDict.%s reads the underlying dict in bulk (`%s`): that layer is keyed by the lower-cased keys, so whatever is built from it (a deep copy, a list of items) has every key in lower case and no longer returns the spelling the caller stored" % (f.name, norm(c)[:70]))
+                elif m_ in POINT:
+                    args = c.args[1:] if isinstance(recv, ast.Name) else c.args
+                    k = args[0] if args else None
+                    folded = k is not None and isinstance(k, ast.Call) and call_name(k) in ("lower", "casefold", "normalize_key")
+                    rep.check(folded, "R12.9", f.qualname, "raw access with an unfolded key: `%s`" % norm(c)[:60], fn_where(f, c), "%s: %s with a folded key" % (f.name, m_),
+                              "OrderedCaselessDict.%s accesses the underlying dict with `%s`: the key is not folded, so an entry stored under another spelling is missed (or a second entry is created beside it)" % (f.name, norm(k) if k is not None else "?"))
+                else:
+                    rep.ob("R12.9", fn_where(f, c), "%s: super().%s" % (f.name, m_), True)
+        rep.floor("R12.9", "accesses to the folded layer", 10, n9)
